@@ -617,6 +617,9 @@ static int ec_write(char *loc, char *cmd, char *arg, char *txt)
 		ex_print(NULL);
 		cmd_pipe(path + 1, ibuf, 0);
 		free(ibuf);
+		snprintf(msg, sizeof(msg), "\"%s\"  [=%d]  [w]", path, end - beg);
+		ex_show(msg);
+		return 0;	/* no file was written: neither a path nor a saved buffer */
 	} else {
 		long ts = !strcmp(ex_path(), path) ? bufs[0].mtime : 0;
 		char *err = lbuf_save(xb, beg, end, path, !!strchr(cmd, '!'), ts);
